@@ -65,6 +65,7 @@ class Ctx:
         self.coq_error = ''
         self.gen_error = ''
         self.deep = tier == 'thorough'     # set to True as well when a proof obligation broke (search mode)
+        self.search = False
 
     @property
     def quick(self): return not self.deep
@@ -256,6 +257,7 @@ def run_check(prop: str, tier: str, seed: int) -> int:
                 if problems:
                     ctx.coq_ok = False; ctx.coq_error = '; '.join(problems)
         if not ctx.coq_ok:
+            ctx.search = ctx.tier != 'thorough'      # search mode entered from a quick run: medium depth where a stage offers one
             ctx.deep = True      # search mode
         # 3. correspondence / translator validation / monitors (also the counter-example search)
         for st_fn in spec['stages']:
